@@ -455,16 +455,16 @@ func runC13(c *Ctx, d c13Desc) {
 	}
 	rtNext := vh.Go(func() *vh.Resp { return rt.Next() })
 	vh.Settle(rtNext, func() bool { return w.E.RuntimeState() == "Ready" }, 3*time.Second)
-	// late registration is closed now
-	late := vh.NewParty("ext:internal-late", w.E.Addr, w.E.Log, rtp.Ctx)
-	lr := late.Register("late-one", []string{"INVOKE"}, "")
-	c.Check(lr.Status == 403 && lr.Etype == "Extension.RegistrationClosed", "registration_closes", fmt.Sprintf("C13/late-register/%d-%s", lr.Status, lr.Etype), "registration after the runtime asked for next was not refused with RegistrationClosed", nil)
 	inv := w.E.InvokeAsync([]byte("final-event"), vh.InvokeOpts{})
 	ev := rtNext.Wait(5 * time.Second)
 	if !c.Check(ev != nil && ev.Status == 200, "init_completes_with_model_parties", "C13/init-stuck", "init did not complete with exactly the parties the model knows (a refused call changed a barrier count?)", strings.Join(trace, " ")) {
 		c.SetSample(sampleLog(w, 120))
 		return
 	}
+	// registration is closed once the first invocation has been delivered
+	late := vh.NewParty("ext:internal-late", w.E.Addr, w.E.Log, rtp.Ctx)
+	lr := late.Register("late-one", []string{"INVOKE"}, "")
+	c.Check(lr.Status == 403 && lr.Etype == "Extension.RegistrationClosed", "registration_closes", fmt.Sprintf("C13/late-register/%d-%s", lr.Status, lr.Etype), "registration after the first delivery was not refused with RegistrationClosed", nil)
 	for _, e := range exts {
 		if e.parked == nil {
 			continue
